@@ -199,6 +199,16 @@ Definition sig_agree (check_neg : bool) (c : sig_case) : bool :=
    register-relative ones lie inside the pointee; nothing panics; negative indices are errors *)
 Definition kind_size (k : bkind) := basic_size k.
 Definition has_neg_index (p : list step) : bool := existsb (fun s => match s with SIndex i => i <? 0 | _ => false end) p.
+(* pointee type reached by the last dereference of a path (types only) *)
+Definition dummy_addr := {| a_sym := ""; a_disp := 0; a_base := BFP |}.
+Fixpoint last_deref_type (t : ty) (p : list step) (acc : option ty) : option ty :=
+  match p with
+  | [] => acc
+  | s :: r => match apply_step true (COk t dummy_addr) s with
+              | COk t' _ => last_deref_type t' r (match s with SDeref _ => Some t' | _ => acc end)
+              | CErr => None
+              end
+  end.
 Definition sig_impl_ok (c : sig_case) : bool :=
   let '(params, results, (pobs, robs_, argsize), paths) := c in
   let flatp := flat_map (fun x : (string * Z) * var => flatten (fst (fst x)) (snd (fst x)) (snd (snd x))) (List.combine pobs params) in
@@ -211,7 +221,14 @@ Definition sig_impl_ok (c : sig_case) : bool :=
          negb (has_neg_index p) &&
          match b with
          | BFP => existsb (fun e => String.eqb (fst (fst e)) s && (snd (fst e) =? d) && (snd e =? kind_size k)) (if isres then flatr else flatp)
-         | BReg _ => String.eqb s "" && (0 <=? d)
+         | BReg _ =>
+             (* through a loaded pointer: the pointee's own offsets, no symbol *)
+             String.eqb s "" &&
+             match List.nth_error (if isres then results else params) idx with
+             | Some v => match last_deref_type (snd v) p None with
+                         | Some e => existsb (fun en => (snd (fst en) =? d) && (snd en =? kind_size k)) (flatten "" 0 e)
+                         | None => false end
+             | None => false end
          end
      end) paths.
 Definition tree_check_neg := true.  (* gotypes Index/At on the current tree: negative index rejected (true) or not (false) *)
